@@ -249,6 +249,7 @@ static struct table tables[] = {
 
 struct casedef {
   int table, dest, type, code, tkl, path, optset_k, optset;
+  int prior; /* 1: the same peer has sent a datagram to the OTHER destination class (unicast / multicast) just before */
 };
 
 static const int edge_paths[] = {0, 1, 2, 5}; /* edge product: none, a, a/b, .well-known/core */
@@ -271,6 +272,7 @@ struct space {
   int ntab;
   int tab[16];   /* table indices */
   int both_dest_all; /* 1: every (type, destination) combination for every table */
+  int prior;         /* 1: every request is preceded by a datagram of the same peer to the other destination class */
   uint64_t per_table[16], base[17];
   uint64_t total;
 };
@@ -325,6 +327,7 @@ decode(const struct space *s, uint64_t idx, struct casedef *c) {
   int ncb = space_combos(s, c->table, &cb);
   c->type = cb[idx % (uint64_t)ncb].type;
   c->dest = cb[idx % (uint64_t)ncb].dest;
+  c->prior = s->prior;
 }
 
 /* --- observation --- */
@@ -719,6 +722,27 @@ eval_case(const struct casedef *cp, uint64_t idx, struct verdict *v) {
     ns_fini();
     return;
   }
+  if (c.prior) {
+    /* the peer's session exists already and was last used with the other destination address: a NON GET for a path nobody
+     * serves, No-Response 26 (nothing is answered either way); then everything settles */
+    struct w_buf pw;
+    uint8_t ptok = 0x77;
+    w_begin(&pw, 1, 1, 0x1111, &ptok, 1);
+    w_opt_add(&pw, 11, "nobody-serves-this", 18);
+    w_opt_add(&pw, 258, "\x1a", 1);
+    ns_inject_now(&peer, c.dest ? &srv : &grp, pw.b, pw.n);
+    for (int k = 0; k < 8; k++) {
+      unsigned t = ns_prepare_all();
+      if (!t || t > 6000)
+        break;
+      ns_advance(t);
+    }
+    ns_prepare_all();
+    while (ns_inflight_count())
+      ns_drop(0);
+    n_hlogs = 0;
+    n_sents = 0;
+  }
   uint8_t *dg = malloc(b.w.n); /* exact-size copy */
   memcpy(dg, b.w.b, b.w.n);
   t_inject = ns_now();
@@ -1093,7 +1117,7 @@ one_case(uint64_t idx, void *arg) {
 }
 
 /* ------------------------------------------------------------------------------------------------ */
-static struct space spaces[4];
+static struct space spaces[6];
 static int n_spaces;
 
 int
@@ -1137,6 +1161,23 @@ main(int argc, char **argv) {
   s->both_dest_all = T;
   space_finish(s);
 
+  /* the request product (<= 1 option item) again on a session the peer has just used with the other destination class */
+  if (asan) {
+    s = &spaces[n_spaces++];
+    memset(s, 0, sizeof *s);
+    s->k = 1;
+    s->prior = 1;
+    snprintf(s->name, sizeof s->name, "requests-after-a-datagram-to-the-other-destination:opts<=1:%s", T ? "full" : "quick");
+    s->ntok = T ? 3 : 2;
+    s->codes = req_codes;
+    s->ncode = T ? N_REQ_CODES : 6;
+    s->npath = N_PATHS;
+    s->ntab = N_TABLES;
+    for (int i = 0; i < N_TABLES; i++)
+      s->tab[i] = i;
+    s->both_dest_all = 1;
+    space_finish(s);
+  }
   /* edge product: all four types x both destinations, invalid classes, Empty, 9-byte token */
   if (asan) {
     s = &spaces[n_spaces++];
@@ -1174,7 +1215,8 @@ main(int argc, char **argv) {
   uint64_t skipped = vxp_counter(CN_SKIP);
   vx_ev_add_states((long long)(done - skipped), (long long)(done - skipped), (long long)(done - skipped));
   vx_ev_add_evals((long long)(done - skipped), (long long)vxp_distinct_count());
-  vx_ev_rule("every case = one request datagram (type x code x token length x Uri-Path x option subset x unicast/multicast destination) "
+  vx_ev_rule("(third space: the request product with <= 1 option item again, each request preceded by a datagram of the same peer to the other destination class - the session exists and was last used with the other local address) "
+             "every case = one request datagram (type x code x token length x Uri-Path x option subset x unicast/multicast destination) "
              "injected into a fresh real libcoap server context configured with one of the resource tables; replies captured at the "
              "socket seam, handler invocations logged; compared with the refsrv decision table. distinct = distinct (table, type, code, "
              "path, destination, deciding rule, reply kind, reply code, handler, suppression reason) tuples");
